@@ -165,6 +165,21 @@ class XL:
             d['spurious_error'] = err
         return d
 
+    def add_chain(self, sa, wa, sb, wb, w1, sc, wc):
+        """add_compound_data(add_compound_data(A, wa, B, wb), w1, C, wc): the intermediate result is an operand"""
+        ps = [self.lib.CompoundParser(_b(x), None) for x in (sa, sb, sc)]
+        if not all(ps):
+            for p in ps:
+                if p: self.lib.FreeCompoundData(p)
+            return Err(-1, 'operand does not parse')
+        p1 = self.lib.add_compound_data(ps[0].contents, wa, ps[1].contents, wb)
+        p2 = self.lib.add_compound_data(p1.contents, w1, ps[2].contents, wc) if p1 else None
+        self.calls += 2
+        d = self._cd(p2) if p2 else Err(-1, 'NULL')
+        for p in ps + [p1, p2]:
+            if p: self.lib.FreeCompoundData(p)
+        return d
+
     def add_compounds(self, sa, wa, sb, wb, same=False, twice=False):
         """add_compound_data on freshly parsed operands.  same: the SAME object is passed as both operands (sb ignored);
         twice: the call is repeated on the same operand objects and the second result returned as d['second'].
